@@ -30,6 +30,9 @@ Next ==
 Spec == Init /\ [][Next]_vars
 \* the join/leave counters grow forever: they stay out of the view (the relation they are used in is inductive)
 View == <<m, h.track, h.occAtNext, h.posAtNext>>
+\* C17 / C18 do not read the late-joiner history; what they read of h is a function of m in this model (joins - leaves =
+\* occupied seats, lastDealer = m.dealer): the seat map alone identifies the state
+ViewNoHist == <<m>>
 CmpView == m
 NoCrash == ~m.crashed
 StepHolds == [][FailedSeat(h, h', m, m', out', Props) \subseteq Ignore]_vars
